@@ -82,6 +82,9 @@ NODESETS = {
     "N2": (Fr(0), Fr(1, 3), Fr(1)),
     "N3": (Fr(0), Fr(1, 4), Fr(2, 3), Fr(1)),
     "U6": tuple(Fr(i, 6) for i in range(7)),
+    # nodes 5e-7 away from those of U4: sliver overlaps that are shorter than match_1d's tol (1e-6 in the sweep) as lengths, but
+    # larger than it as fractions of a cell -- they carry weight and must not be lost (used in the match_1d sweep only)
+    "S4": (Fr(0), Fr(1, 4) + Fr(5, 10**7), Fr(1, 2), Fr(3, 4) - Fr(5, 10**7), Fr(1)),
 }
 
 
@@ -652,11 +655,12 @@ def run(rep):
             return g
 
         names = ["U1", "U2", "U3", "U4", "U6", "N2", "N3"]
-        for a, b in itertools.product(names, repeat=2):
+        for a, b in list(itertools.product(names, repeat=2)) + [("S4", "U4"), ("U4", "S4"), ("S4", "U2")]:
             for ra, rb, oblique in ((False, False, False), (True, False, False), (False, True, True), (True, True, True)):
                 ga, gb = line_grid(NODESETS[a], ra, oblique), line_grid(NODESETS[b], rb, oblique)
                 ca, cb = intervals(NODESETS[a], ra), intervals(NODESETS[b], rb)
-                for scaling in ("averaged", "integrated", None):
+                # (with scaling=None the result is the boolean "overlap longer than tol": not defined by the statement for slivers below tol)
+                for scaling in (("averaged", "integrated") if "S4" in (a, b) else ("averaged", "integrated", None)):
                     inputs = {"new": a, "old": b, "new_reversed": ra, "old_reversed": rb, "oblique": oblique, "scaling": scaling}
                     sw.case(key=(a, b, ra, rb, oblique, scaling), nontrivial=a != b, sample=inputs if a != b else None)
                     sig = f"scaling {scaling}, {'identical' if a == b else relation(NODESETS[a], NODESETS[b]).replace('mortar', 'new')} node sets"
